@@ -235,20 +235,49 @@ fn read_sunk(path: &str) -> u64 {
 
 // ---------------------------------------------------------------- watchdog
 
-static ACTIVE_PID: AtomicI32 = AtomicI32::new(0);
-static PROGRESS: AtomicU64 = AtomicU64::new(0);
-static DEADLOCK: AtomicBool = AtomicBool::new(false);
-static THRESH_MS: AtomicU64 = AtomicU64::new(250);
-static WD_TID: AtomicI32 = AtomicI32::new(0);
+/// one slot per thread that runs cases (slot 0 = the main thread)
+struct Slot {
+    pid: AtomicI32,
+    progress: AtomicU64,
+    deadlock: AtomicBool,
+    thresh_ms: AtomicU64,
+    t0_ms: AtomicU64,
+    tid: AtomicI32,
+}
 
-static CASE_T0: AtomicU64 = AtomicU64::new(0);
+const WORKERS: usize = 8;
+
+#[allow(clippy::declare_interior_mutable_const)]
+const SLOT_INIT: Slot = Slot {
+    pid: AtomicI32::new(0),
+    progress: AtomicU64::new(0),
+    deadlock: AtomicBool::new(false),
+    thresh_ms: AtomicU64::new(300),
+    t0_ms: AtomicU64::new(0),
+    tid: AtomicI32::new(0),
+};
+static SLOTS: [Slot; WORKERS + 1] = [SLOT_INIT; WORKERS + 1];
+static LINES: std::sync::Mutex<Vec<String>> = std::sync::Mutex::new(Vec::new());
+
+thread_local! {
+    static MY_SLOT: std::cell::Cell<usize> = const { std::cell::Cell::new(0) };
+}
+
+fn slot() -> &'static Slot {
+    &SLOTS[MY_SLOT.with(|s| s.get())]
+}
+
+fn enter_slot(i: usize) {
+    MY_SLOT.with(|s| s.set(i));
+    SLOTS[i].tid.store(unsafe { libc::syscall(libc::SYS_gettid) } as i32, Ordering::SeqCst);
+}
 
 fn now_ms() -> u64 {
     std::time::SystemTime::now().duration_since(std::time::UNIX_EPOCH).unwrap().as_millis() as u64
 }
 
 fn bump() {
-    PROGRESS.fetch_add(1, Ordering::Relaxed);
+    slot().progress.fetch_add(1, Ordering::Relaxed);
 }
 
 fn proc_state(path: &str) -> Option<char> {
@@ -272,10 +301,12 @@ fn descendants(pid: i32, out: &mut Vec<i32>) {
     }
 }
 
-/// every process below `pid` is a zombie / gone or asleep in read, write, wait4, waitid
-fn group_blocked(pid: i32) -> bool {
+/// every process below `pid` is a zombie / gone or asleep in read, write, wait4, waitid;
+/// second component: some process is asleep in a read or a write (blocked on a pipe)
+fn group_blocked(pid: i32) -> (bool, bool) {
     let mut ps = vec![];
     descendants(pid, &mut ps);
+    let mut on_pipe = false;
     for p in ps {
         match proc_state(&format!("/proc/{p}/stat")) {
             None | Some('Z') | Some('X') => continue,
@@ -283,81 +314,118 @@ fn group_blocked(pid: i32) -> bool {
                 let sc = fs::read_to_string(format!("/proc/{p}/syscall")).unwrap_or_default();
                 let nr = sc.split_whitespace().next().and_then(|x| x.parse::<i64>().ok());
                 match nr {
-                    Some(0) | Some(1) | Some(61) | Some(247) | Some(17) | Some(18) | Some(19) | Some(20) => {}
-                    _ => return false,
+                    Some(0) | Some(1) | Some(17) | Some(18) | Some(19) | Some(20) => on_pipe = true,
+                    Some(61) | Some(247) => {}
+                    _ => return (false, false),
                 }
             }
-            _ => return false,
+            _ => return (false, false),
         }
     }
-    true
+    (true, on_pipe)
 }
 
-/// every thread of this process except the watchdog is asleep
-fn self_asleep() -> bool {
-    let me = WD_TID.load(Ordering::Relaxed);
-    if let Ok(rd) = fs::read_dir("/proc/self/task") {
-        for t in rd.flatten() {
-            let tid: i32 = t.file_name().to_string_lossy().parse().unwrap_or(0);
-            if tid == me {
-                continue;
-            }
-            match proc_state(&format!("/proc/self/task/{tid}/stat")) {
-                Some('S') | Some('I') | None => {}
-                _ => return false,
-            }
-        }
-    }
-    true
+/// the thread that runs the case (the compio runtime lives on it) is asleep
+fn thread_asleep(tid: i32) -> bool {
+    matches!(proc_state(&format!("/proc/self/task/{tid}/stat")), Some('S') | Some('I'))
 }
 
 fn start_watchdog() {
     std::thread::spawn(|| {
-        WD_TID.store(unsafe { libc::syscall(libc::SYS_gettid) } as i32, Ordering::Relaxed);
-        let mut cur = 0;
-        let mut last = 0u64;
-        // time of the last observed progress, start of the current streak of "everything asleep" samples
-        let mut moved = Instant::now();
-        let mut asleep_since: Option<Instant> = None;
+        struct W {
+            cur: i32,
+            last: u64,
+            // time of the last observed progress, start of the current streak of "everything asleep" samples
+            moved: Instant,
+            asleep_since: Option<Instant>,
+        }
+        let mut ws: Vec<W> = (0..=WORKERS).map(|_| W { cur: 0, last: 0, moved: Instant::now(), asleep_since: None }).collect();
         loop {
             std::thread::sleep(Duration::from_millis(20));
-            let pid = ACTIVE_PID.load(Ordering::SeqCst);
-            let t0 = CASE_T0.load(Ordering::SeqCst);
-            if t0 != 0 && now_ms() > t0 + 120_000 {
-                eprintln!("c20 harness: case exceeded 120 s, aborting");
-                if pid != 0 {
-                    unsafe { libc::kill(-pid, libc::SIGKILL) };
+            for (i, w) in ws.iter_mut().enumerate() {
+                let sl = &SLOTS[i];
+                let pid = sl.pid.load(Ordering::SeqCst);
+                let t0 = sl.t0_ms.load(Ordering::SeqCst);
+                if t0 != 0 && now_ms() > t0 + 180_000 {
+                    eprintln!("c20 harness: a case exceeded 180 s, aborting");
+                    if pid != 0 {
+                        unsafe { libc::kill(-pid, libc::SIGKILL) };
+                    }
+                    std::process::abort();
                 }
-                std::process::abort();
-            }
-            if pid == 0 {
-                cur = 0;
-                continue;
-            }
-            let p = PROGRESS.load(Ordering::Relaxed);
-            if pid != cur || p != last || DEADLOCK.load(Ordering::SeqCst) {
-                cur = pid;
-                last = p;
-                moved = Instant::now();
-                asleep_since = None;
-                continue;
-            }
-            let thresh = Duration::from_millis(THRESH_MS.load(Ordering::Relaxed));
-            if moved.elapsed() < thresh / 2 {
-                continue;
-            }
-            if !(self_asleep() && group_blocked(pid)) {
-                asleep_since = None;
-                continue;
-            }
-            let t = *asleep_since.get_or_insert_with(Instant::now);
-            if t.elapsed() >= thresh / 2 && moved.elapsed() >= thresh {
-                DEADLOCK.store(true, Ordering::SeqCst);
-                unsafe {
-                    libc::kill(-pid, libc::SIGKILL);
-                    libc::kill(pid, libc::SIGKILL);
+                if pid == 0 {
+                    w.cur = 0;
+                    continue;
                 }
-                asleep_since = None;
+                let p = sl.progress.load(Ordering::Relaxed);
+                if pid != w.cur || p != w.last || sl.deadlock.load(Ordering::SeqCst) {
+                    w.cur = pid;
+                    w.last = p;
+                    w.moved = Instant::now();
+                    w.asleep_since = None;
+                    continue;
+                }
+                let thresh = Duration::from_millis(sl.thresh_ms.load(Ordering::Relaxed));
+                if w.moved.elapsed() < thresh / 2 {
+                    continue;
+                }
+                let (blocked, on_pipe) = group_blocked(pid);
+                if !(thread_asleep(sl.tid.load(Ordering::SeqCst)) && blocked) {
+                    w.asleep_since = None;
+                    continue;
+                }
+                // nobody of the child's group waits on a pipe (exited, or gone): only a very long silence counts
+                let thresh = if on_pipe { thresh } else { thresh * 4 };
+                let t = *w.asleep_since.get_or_insert_with(Instant::now);
+                if t.elapsed() >= thresh / 2 && w.moved.elapsed() >= thresh {
+                    if std::env::var("C20_DEBUG").is_ok() {
+                        let mut ps = vec![];
+                        descendants(pid, &mut ps);
+                        let mut d = format!("deadlock slot {i} pid {pid} progress {p} line {:?}:", LINES.lock().unwrap().get(i));
+                        for q in ps {
+                            d += &format!(
+                                " [{q} {:?} sys={} cmd={}]",
+                                proc_state(&format!("/proc/{q}/stat")),
+                                fs::read_to_string(format!("/proc/{q}/syscall")).unwrap_or_default().split_whitespace().take(2).collect::<Vec<_>>().join(","),
+                                fs::read_to_string(format!("/proc/{q}/cmdline")).unwrap_or_default().replace('\0', " ")
+                            );
+                        }
+                        let tid = sl.tid.load(Ordering::SeqCst);
+                        d += &format!(
+                            " thread {tid} sys={} wchan={}",
+                            fs::read_to_string(format!("/proc/self/task/{tid}/syscall")).unwrap_or_default().split_whitespace().take(2).collect::<Vec<_>>().join(","),
+                            fs::read_to_string(format!("/proc/self/task/{tid}/wchan")).unwrap_or_default()
+                        );
+                        // pipes of the child and who else holds them; epoll registrations of this process
+                        let mut ps2 = vec![];
+                        descendants(pid, &mut ps2);
+                        if let Some(q) = ps2.last() {
+                            for n in 0..3 {
+                                d += &format!(" child-fd{n}={:?}", fs::read_link(format!("/proc/{q}/fd/{n}")).ok());
+                            }
+                        }
+                        if let Ok(rd) = fs::read_dir("/proc/self/fd") {
+                            for e in rd.flatten() {
+                                let l = fs::read_link(e.path()).map(|p| p.to_string_lossy().into_owned()).unwrap_or_default();
+                                if l.starts_with("pipe:") {
+                                    d += &format!(" self:{}={}", e.file_name().to_string_lossy(), l);
+                                }
+                                if l.contains("eventpoll") {
+                                    let fi = fs::read_to_string(format!("/proc/self/fdinfo/{}", e.file_name().to_string_lossy())).unwrap_or_default();
+                                    let regs: Vec<String> = fi.lines().filter(|x| x.starts_with("tfd:")).map(|x| x.split_whitespace().take(4).collect::<Vec<_>>().join(" ")).collect();
+                                    d += &format!(" epoll:{}=[{}]", e.file_name().to_string_lossy(), regs.join("; "));
+                                }
+                            }
+                        }
+                        eprintln!("{d}");
+                    }
+                    sl.deadlock.store(true, Ordering::SeqCst);
+                    unsafe {
+                        libc::kill(-pid, libc::SIGKILL);
+                        libc::kill(pid, libc::SIGKILL);
+                    }
+                    w.asleep_since = None;
+                }
             }
         }
     });
@@ -556,7 +624,7 @@ async fn run_compio(sc: &Scn, cmd: &str, payload: Vec<u8>, file: &str) -> Obs {
             }
         };
         let pid = child.id();
-        ACTIVE_PID.store(pid as i32, Ordering::SeqCst);
+        slot().pid.store(pid as i32, Ordering::SeqCst);
         let r = child_wait_pidfd(child).await;
         after_wait(&mut o, pid, r);
         o.w = "ok".into();
@@ -582,7 +650,7 @@ async fn run_compio(sc: &Scn, cmd: &str, payload: Vec<u8>, file: &str) -> Obs {
         }
     };
     let pid = child.id();
-    ACTIVE_PID.store(pid as i32, Ordering::SeqCst);
+    slot().pid.store(pid as i32, Ordering::SeqCst);
     o.capin = child.stdin.as_ref().map(|s| pipe_size(s.as_raw_fd())).unwrap_or(sc.capin as i64);
     o.capout = child.stdout.as_ref().map(|s| pipe_size(s.as_raw_fd())).unwrap_or(-1);
     o.caperr = child.stderr.as_ref().map(|s| pipe_size(s.as_raw_fd())).unwrap_or(-1);
@@ -739,7 +807,15 @@ fn exec_line(line: &str, ex: &mut Exec) -> String {
     let reads_stdin = sc.script.iter().any(|a| matches!(a, Act::Copy { .. }));
     let echoes = sc.script.iter().any(|a| matches!(a, Act::Copy { dst: 'o' | 'e', .. }));
 
-    CASE_T0.store(now_ms(), Ordering::SeqCst);
+    slot().t0_ms.store(now_ms(), Ordering::SeqCst);
+    {
+        let mut l = LINES.lock().unwrap();
+        let i = MY_SLOT.with(|s| s.get());
+        if l.len() <= WORKERS {
+            l.resize(WORKERS + 1, String::new());
+        }
+        l[i] = line.to_string();
+    }
     // the std::process run does not depend on the driver: shared between the scenarios of a pair
     let okey = format!(
         "{cmd}|{}|{}|{}|{}|{}|{}|{}|{}",
@@ -757,15 +833,19 @@ fn exec_line(line: &str, ex: &mut Exec) -> String {
     };
 
     let cf = tmp_file("c");
-    DEADLOCK.store(false, Ordering::SeqCst);
-    THRESH_MS.store(250 + 3 * NOP_MS * nops, Ordering::Relaxed);
+    slot().deadlock.store(false, Ordering::SeqCst);
+    // `dl`: the scenario was built to deadlock (or may, mode loose): decide after a short silence.
+    // Otherwise a deadlock is a failure anyway: wait long enough to rule out a slow machine.
+    let base_ms: u64 = std::env::var("C20_THRESH").ok().and_then(|x| x.parse().ok()).unwrap_or(if sc.opt("dl") { 1500 } else { 12000 });
+    slot().thresh_ms.store(base_ms + 3 * NOP_MS * nops, Ordering::Relaxed);
     let r = with_rt(&sc.drv, |rt| rt.block_on(run_compio(&sc, &cmd, payload.clone(), &cf)));
-    ACTIVE_PID.store(0, Ordering::SeqCst);
+    slot().pid.store(0, Ordering::SeqCst);
+    slot().t0_ms.store(0, Ordering::SeqCst);
     let mut o = match r {
         Ok(o) => o,
         Err(e) => return e,
     };
-    o.deadlock = DEADLOCK.swap(false, Ordering::SeqCst);
+    o.deadlock = slot().deadlock.swap(false, Ordering::SeqCst);
     o.sunk = read_sunk(&cf);
 
     ex.tag(format!("drv:{}", sc.drv));
@@ -875,13 +955,78 @@ fn exec_line(line: &str, ex: &mut Exec) -> String {
     )
 }
 
-fn exec(case: &Case) -> Exec {
+fn exec_case(case: &Case) -> Exec {
     let mut ex = Exec::new();
     for l in &case.lines {
+        let t0 = Instant::now();
         let out = exec_line(l, &mut ex);
+        if std::env::var("C20_TIMES").is_ok() {
+            eprintln!("{:>6} ms  {}", t0.elapsed().as_millis(), l);
+        }
         ex.out.push(out);
     }
     ex
+}
+
+// ---------------------------------------------------------------- parallel execution of the generated cases
+
+type Results = (std::sync::Mutex<std::collections::HashMap<String, Option<Exec>>>, std::sync::Condvar);
+static RESULTS: std::sync::OnceLock<Results> = std::sync::OnceLock::new();
+
+fn results() -> &'static Results {
+    RESULTS.get_or_init(|| (std::sync::Mutex::new(std::collections::HashMap::new()), std::sync::Condvar::new()))
+}
+
+/// Start worker threads on the generated cases. Consecutive cases that differ only in the driver stay on
+/// one worker (they share the oracle run). Corpus and replay cases run on the main thread.
+fn prefetch(cases: &[Case]) {
+    let drop_drv = |c: &Case| c.lines.iter().map(|l| l.replacen("run uring", "run", 1).replacen("run poll", "run", 1)).collect::<Vec<_>>();
+    let mut units: Vec<Vec<Case>> = vec![];
+    for c in cases {
+        match units.last_mut() {
+            Some(u) if u.len() == 1 && drop_drv(&u[0]) == drop_drv(c) => u.push(c.clone()),
+            _ => units.push(vec![c.clone()]),
+        }
+    }
+    {
+        let mut m = results().0.lock().unwrap();
+        for c in cases {
+            m.insert(c.name.clone(), None);
+        }
+    }
+    let units = std::sync::Arc::new(units);
+    let next = std::sync::Arc::new(std::sync::atomic::AtomicUsize::new(0));
+    for w in 1..=WORKERS {
+        let (units, next) = (units.clone(), next.clone());
+        std::thread::spawn(move || {
+            enter_slot(w);
+            loop {
+                let i = next.fetch_add(1, Ordering::SeqCst);
+                let Some(u) = units.get(i) else { break };
+                for c in u {
+                    let ex = exec_case(c);
+                    let (m, cv) = results();
+                    m.lock().unwrap().insert(c.name.clone(), Some(ex));
+                    cv.notify_all();
+                }
+            }
+        });
+    }
+}
+
+fn exec(case: &Case) -> Exec {
+    let (m, cv) = results();
+    let mut g = m.lock().unwrap();
+    if !g.contains_key(&case.name) {
+        drop(g);
+        return exec_case(case);
+    }
+    loop {
+        if let Some(Some(_)) = g.get(&case.name) {
+            return g.remove(&case.name).unwrap().unwrap();
+        }
+        g = cv.wait(g).unwrap();
+    }
 }
 
 // ---------------------------------------------------------------- generator
@@ -1004,6 +1149,9 @@ fn poll_mode(sc: &mut Scn) {
 fn push(cases: &mut Vec<Case>, name: &str, mut sc: Scn) {
     clamp_chunks(&mut sc);
     poll_mode(&mut sc);
+    if (sc.mode == "loose" && sc.drv == "poll" || sc.opt("sure") || sc.plan == "held" || name == "order-deadlock") && !sc.opt("dl") {
+        sc.opts.push("dl".into());
+    }
     let n = cases.len();
     cases.push(Case { name: format!("{name}-{n}"), lines: vec![sc.line()] });
 }
@@ -1294,9 +1442,14 @@ fn generate(tier: &str, rng: &mut Rng) -> Vec<Case> {
 }
 
 fn main() {
+    enter_slot(0);
     start_watchdog();
     run_harness(
-        generate,
+        |tier, rng| {
+            let cases = generate(tier, rng);
+            prefetch(&cases);
+            cases
+        },
         exec,
         "a case is non-trivial when at least one byte went through a pipe, the status is not success, or the run deadlocked",
     );
